@@ -4,9 +4,13 @@ package main
 // profile, with ammo exhaustion / end of the shared RPS profile / run cancellation / gun creation failure placed before,
 // inside and after the startup window.
 //
-//	startup=<part>[+<part>...]   part = once:N | const:OPS:MS | step:FROM:TO:STEP:MS   (real schedule constructors)
-//	rps=<part>[+...] [perinst=1] ammo=<N, 0 = unlimited> resp=<ms> [cancel=<ms>] [failgun=<j>: the j-th instance gun (0-based) cannot be created]
-//	[gundelay=<ms>: every instance gun takes that long to create]
+//	startup=<part>[+<part>...]   part = once:N | const:OPS:MS | constm:MILLIOPS:MS (fractional rate) | step:FROM:TO:STEP:MS |
+//	                             [<part>+<part>...] (a NESTED composite)                       (real schedule constructors)
+//	rps=<part>[+...] [perinst=1] ammo=<N, 0 = unlimited> resp=<ms> [cancel=<ms>] [gundelay=<ms>: every instance gun takes that long to create]
+//	an instance that cannot be created, at each of the three points of newInstance (j = 0-based creation attempt):
+//	[failgun=<j>: NewGun fails] [failbind=<j>: gun.Bind fails] [failsched=<j>: NewRPSSchedule fails (perinst=1 only)]
+//	<pool> || <pool> ...         several pools in ONE engine (cancel= is taken from the first); the observation is one
+//	                             observation per pool joined by " || "; a failing pool makes the engine cancel the run of the others
 //
 // Observation (instants in ns since just before Engine.Run was called, monotonic clock):
 //
@@ -16,6 +20,8 @@ package main
 //	ctoks=<token offsets of a drained copy of the startup schedule> guns=<instants of the NewGun calls after the warm-up gun>
 //	binds=<InstanceID:instant,...> (in call order) exits=<InstanceID:instant of gun Close:reason,...> (by instant; reason = sched|ammo|ctx|err|? from the
 //	pool's debug log "Instance run awaited") cuts=<ammo|rps|cancel|fail:first instant,...> jitter=<largest oversleep of a 5 ms heartbeat, ns>
+//	lastshot=<instant at which the last Shoot began, -1 = none> gunctx=<first instant at which a gun, shooting or being closed, saw the context
+//	it was given in GunDeps done, -1 = never> (cut `cancel` of a pool = the caller's cancel or the failure of ANOTHER pool of the engine)
 
 import (
 	"context"
@@ -43,15 +49,17 @@ import (
 )
 
 type rec struct {
-	clk   *trec.Clock
-	mu    sync.Mutex
-	toks  []int64
-	picks []int64
-	guns  []int64
-	binds [][2]int64
-	exits [][2]int64 // id, instant of Close
-	cuts  map[string]int64
-	fails int
+	clk      *trec.Clock
+	mu       sync.Mutex
+	toks     []int64
+	picks    []int64
+	guns     []int64 // instants of the creation attempts (NewGun after the warm-up gun; NewRPSSchedule with per-instance schedules)
+	binds    [][2]int64
+	exits    [][2]int64 // id, instant of Close
+	cuts     map[string]int64
+	fails    int
+	lastShot int64
+	gunCtx   int64
 }
 
 func (r *rec) cut(kind string) {
@@ -119,21 +127,49 @@ func (p *recProvider) Acquire() (core.Ammo, bool) {
 }
 
 type recGun struct {
-	r    *rec
-	resp time.Duration
-	id   int64
+	r        *rec
+	resp     time.Duration
+	id       int64
+	failBind bool
+	ctx      context.Context
 }
 
 func (g *recGun) Bind(_ core.Aggregator, deps core.GunDeps) error {
 	t := g.r.clk.Now()
+	if g.failBind {
+		g.r.cut("fail")
+		g.r.mu.Lock()
+		g.r.fails++
+		g.r.mu.Unlock()
+		return errors.New("gun cannot be bound")
+	}
 	g.id = int64(deps.InstanceID)
+	g.ctx = deps.Ctx
 	g.r.mu.Lock()
 	g.r.binds = append(g.r.binds, [2]int64{int64(deps.InstanceID), t})
 	g.r.mu.Unlock()
 	return nil
 }
 
+// sawCtx: the context the gun was given is done while its instance is shooting / being closed
+func (g *recGun) sawCtx(t int64) {
+	if g.ctx != nil && g.ctx.Err() != nil {
+		g.r.mu.Lock()
+		if g.r.gunCtx < 0 {
+			g.r.gunCtx = t
+		}
+		g.r.mu.Unlock()
+	}
+}
+
 func (g *recGun) Shoot(core.Ammo) {
+	t := g.r.clk.Now()
+	g.sawCtx(t)
+	g.r.mu.Lock()
+	if t > g.r.lastShot {
+		g.r.lastShot = t
+	}
+	g.r.mu.Unlock()
 	if g.resp > 0 {
 		time.Sleep(g.resp)
 	}
@@ -141,9 +177,10 @@ func (g *recGun) Shoot(core.Ammo) {
 
 func (g *recGun) Close() error {
 	if g.id < 0 {
-		return nil // never bound (the pool's warm-up gun): not an instance
+		return nil // never bound (the pool's warm-up gun, a gun whose Bind failed): not an instance
 	}
 	t := g.r.clk.Now()
+	g.sawCtx(t)
 	g.r.mu.Lock()
 	g.r.exits = append(g.r.exits, [2]int64{g.id, t})
 	g.r.mu.Unlock()
@@ -155,9 +192,34 @@ type nopAggr struct{}
 func (nopAggr) Run(ctx context.Context, _ core.AggregatorDeps) error { <-ctx.Done(); return nil }
 func (nopAggr) Report(core.Sample)                                   {}
 
+// splitTop splits at '+' outside brackets
+func splitTop(p string) []string {
+	var out []string
+	depth, from := 0, 0
+	for i, c := range p {
+		switch c {
+		case '[':
+			depth++
+		case ']':
+			depth--
+		case '+':
+			if depth == 0 {
+				out = append(out, p[from:i])
+				from = i + 1
+			}
+		}
+	}
+	return append(out, p[from:])
+}
+
 func buildProfile(p string) core.Schedule {
 	var parts []core.Schedule
-	for _, seg := range strings.Split(p, "+") {
+	for _, seg := range splitTop(p) {
+		if strings.HasPrefix(seg, "[") && strings.HasSuffix(seg, "]") {
+			// a nested composite, built by the same constructor as the outer one
+			parts = append(parts, buildProfile(seg[1:len(seg)-1]))
+			continue
+		}
 		f := strings.Split(seg, ":")
 		n := func(i int) int64 {
 			v, err := strconv.ParseInt(f[i], 10, 64)
@@ -171,14 +233,13 @@ func buildProfile(p string) core.Schedule {
 			parts = append(parts, schedule.NewOnceConf(schedule.OnceConfig{Times: n(1)}))
 		case f[0] == "const" && len(f) == 3:
 			parts = append(parts, schedule.NewConstConf(schedule.ConstConfig{Ops: float64(n(1)), Duration: time.Duration(n(2)) * time.Millisecond}))
+		case f[0] == "constm" && len(f) == 3:
+			parts = append(parts, schedule.NewConstConf(schedule.ConstConfig{Ops: float64(n(1)) / 1000, Duration: time.Duration(n(2)) * time.Millisecond}))
 		case f[0] == "step" && len(f) == 5:
 			parts = append(parts, schedule.NewInstanceStepConf(schedule.InstanceStepConfig{From: n(1), To: n(2), Step: n(3), StepDuration: time.Duration(n(4)) * time.Millisecond}))
 		default:
 			panic("bad profile " + seg)
 		}
-	}
-	if len(parts) == 1 {
-		return parts[0]
 	}
 	return schedule.NewCompositeConf(schedule.CompositeConf{Nested: parts})
 }
@@ -191,42 +252,67 @@ func joinInts(v []int64) string {
 	return strings.Join(s, ",")
 }
 
-func run(input string) string {
-	m := drv.KV(input)
-	atoi := func(k string, d int64) int64 {
-		if v, ok := m[k]; ok {
-			x, err := strconv.ParseInt(v, 10, 64)
-			if err != nil {
-				panic("bad " + k)
-			}
-			return x
+func atoiKV(m map[string]string, k string, d int64) int64 {
+	if v, ok := m[k]; ok {
+		x, err := strconv.ParseInt(v, 10, 64)
+		if err != nil {
+			panic("bad " + k)
 		}
-		return d
+		return x
 	}
+	return d
+}
+
+// one pool of the engine under test
+type poolCase struct {
+	id    string
+	m     map[string]string
+	r     *rec
+	ctoks []int64
+	conf  engine.InstancePoolConfig
+}
+
+func newPoolCase(id string, m map[string]string) *poolCase {
+	pc := &poolCase{id: id, m: m, r: &rec{cuts: map[string]int64{}, lastShot: -1, gunCtx: -1}}
 	// token offsets of the startup profile, from a drained copy
-	var ctoks []int64
 	base := time.Unix(1_700_000_000, 0)
 	cp := buildProfile(m["startup"])
 	cp.Start(base)
-	for len(ctoks) < 100000 {
+	for len(pc.ctoks) < 100000 {
 		ts, ok := cp.Next()
 		if !ok {
 			break
 		}
-		ctoks = append(ctoks, int64(ts.Sub(base)))
+		pc.ctoks = append(pc.ctoks, int64(ts.Sub(base)))
 	}
-	r := &rec{cuts: map[string]int64{}}
-	ammo := int(atoi("ammo", 0))
+	r := pc.r
+	ammo := int(atoiKV(m, "ammo", 0))
 	if ammo <= 0 {
 		ammo = -1
 	}
-	resp := time.Duration(atoi("resp", 0)) * time.Millisecond
-	failgun := atoi("failgun", -1)
-	gundelay := time.Duration(atoi("gundelay", 0)) * time.Millisecond
+	resp := time.Duration(atoiKV(m, "resp", 0)) * time.Millisecond
+	failgun := atoiKV(m, "failgun", -1)
+	failbind := atoiKV(m, "failbind", -1)
+	failsched := atoiKV(m, "failsched", -1)
+	gundelay := time.Duration(atoiKV(m, "gundelay", 0)) * time.Millisecond
+	perinst := m["perinst"] == "1"
+	attempt := func() {
+		t := r.clk.Now()
+		r.mu.Lock()
+		r.guns = append(r.guns, t)
+		r.mu.Unlock()
+	}
+	failed := func() {
+		r.cut("fail")
+		r.mu.Lock()
+		r.fails++
+		r.mu.Unlock()
+	}
 	var gunCalls int64 = -1 // the first NewGun call is the warm-up gun of the pool
+	var schedCalls int64
 	var gunMu sync.Mutex
-	conf := engine.InstancePoolConfig{
-		ID:         "c12",
+	pc.conf = engine.InstancePoolConfig{
+		ID:         id,
 		Provider:   &recProvider{Provider: provider.NewNum(ammo), r: r},
 		Aggregator: nopAggr{},
 		NewGun: func() (core.Gun, error) {
@@ -234,33 +320,55 @@ func run(input string) string {
 			n := gunCalls
 			gunCalls++
 			gunMu.Unlock()
-			if n >= 0 {
-				t := r.clk.Now()
-				r.mu.Lock()
-				r.guns = append(r.guns, t)
-				r.mu.Unlock()
+			if n >= 0 && !perinst {
+				attempt()
 			}
 			if n >= 0 && gundelay > 0 {
 				time.Sleep(gundelay) // a gun that takes time to create: the first instance is created synchronously by the start loop
 			}
 			if n >= 0 && n == failgun {
-				r.cut("fail")
-				r.mu.Lock()
-				r.fails++
-				r.mu.Unlock()
+				failed()
 				return nil, errors.New("gun cannot be created")
 			}
-			return &recGun{r: r, resp: resp, id: -1}, nil
+			return &recGun{r: r, resp: resp, id: -1, failBind: n >= 0 && n == failbind}, nil
 		},
-		RPSPerInstance: m["perinst"] == "1",
+		RPSPerInstance: perinst,
 		NewRPSSchedule: func() (core.Schedule, error) {
+			if perinst {
+				// with per-instance schedules this is the first thing newInstance does: the creation attempt
+				gunMu.Lock()
+				n := schedCalls
+				schedCalls++
+				gunMu.Unlock()
+				attempt()
+				if n == failsched {
+					failed()
+					return nil, errors.New("schedule cannot be created")
+				}
+			}
 			return &rpsSched{Schedule: buildProfile(m["rps"]), r: r}, nil
 		},
 		StartupSchedule: &startSched{Schedule: buildProfile(m["startup"]), r: r},
 	}
+	return pc
+}
+
+func run(input string) string {
+	var pools []*poolCase
+	var confs []engine.InstancePoolConfig
+	for i, seg := range strings.Split(input, "||") {
+		id := "c12"
+		if i > 0 {
+			id = fmt.Sprintf("c12p%d", i)
+		}
+		pc := newPoolCase(id, drv.KV(seg))
+		pools = append(pools, pc)
+		confs = append(confs, pc.conf)
+	}
+	m := pools[0].m
 	met := trec.Metrics()
 	obsCore, logs := observer.New(zapcore.DebugLevel)
-	eng := engine.New(zap.New(obsCore), met, engine.Config{Pools: []engine.InstancePoolConfig{conf}})
+	eng := engine.New(zap.New(obsCore), met, engine.Config{Pools: confs})
 	ctx, cancel := context.WithCancel(context.Background())
 	defer cancel()
 	// heartbeat: how badly is this process being scheduled while the case runs?
@@ -281,11 +389,16 @@ func run(input string) string {
 			}
 		}
 	}()
-	r.clk = trec.NewClock()
+	clk := trec.NewClock()
+	for _, pc := range pools {
+		pc.r.clk = clk
+	}
 	if c, ok := m["cancel"]; ok {
 		ms, _ := strconv.ParseInt(c, 10, 64)
 		do := func() {
-			r.cut("cancel")
+			for _, pc := range pools {
+				pc.r.cut("cancel")
+			}
 			cancel()
 		}
 		if ms <= 0 {
@@ -296,7 +409,7 @@ func run(input string) string {
 		}
 	}
 	err := eng.Run(ctx)
-	end := r.clk.Now()
+	end := clk.Now()
 	eng.Wait()
 	close(hbStop)
 	<-hbDone
@@ -308,6 +421,40 @@ func run(input string) string {
 			e = "other"
 		}
 	}
+	// a failing pool makes Engine.Run return, which cancels the run of every other pool: for THEM the run was cancelled, not
+	// earlier than the failure
+	for i, pc := range pools {
+		pc.r.mu.Lock()
+		ft, failedHere := pc.r.cuts["fail"]
+		pc.r.mu.Unlock()
+		if !failedHere {
+			continue
+		}
+		for j, other := range pools {
+			if j == i {
+				continue
+			}
+			other.r.mu.Lock()
+			if t, ok := other.r.cuts["cancel"]; !ok || ft < t {
+				other.r.cuts["cancel"] = ft
+			}
+			other.r.mu.Unlock()
+		}
+	}
+	sumK := int64(0)
+	for _, pc := range pools {
+		sumK += int64(len(pc.r.binds))
+	}
+	var outs []string
+	for _, pc := range pools {
+		outs = append(outs, pc.observation(logs, e, end, met.InstanceStart.Get()-sumK, jitter))
+	}
+	return strings.Join(outs, " || ")
+}
+
+// observation of one pool; extraStarts = InstanceStart of the whole engine minus the bound guns of all pools (0 when they agree)
+func (pc *poolCase) observation(logs *observer.ObservedLogs, e string, end int64, extraStarts int64, jitter int64) string {
+	r := pc.r
 	// what the pool logged about the start loop and the instances
 	started, starterr := int64(-1), "?"
 	reason := map[int64]string{}
@@ -325,6 +472,9 @@ func run(input string) string {
 	}
 	for _, en := range logs.All() {
 		cm := en.ContextMap()
+		if id, _ := cm["pool"].(string); id != pc.id {
+			continue
+		}
 		switch en.Message {
 		case "Instances start awaited":
 			if v, ok := cm["started"].(int64); ok {
@@ -370,9 +520,10 @@ func run(input string) string {
 			cuts = append(cuts, fmt.Sprintf("%s:%d", k, t))
 		}
 	}
-	return fmt.Sprintf("k=%d err=%s end=%d mstart=%d fails=%d total=%d started=%d starterr=%s running=%d ids=%s toks=%s picks=%s ctoks=%s guns=%s binds=%s exits=%s cuts=%s jitter=%d",
-		len(r.binds), e, end, met.InstanceStart.Get(), r.fails, len(ctoks), started, starterr, len(r.binds)-len(r.exits), joinInts(ids),
-		joinInts(r.toks), joinInts(r.picks), joinInts(ctoks), joinInts(r.guns), strings.Join(binds, ","), strings.Join(exits, ","), strings.Join(cuts, ","), jitter)
+	return fmt.Sprintf("k=%d err=%s end=%d mstart=%d fails=%d total=%d started=%d starterr=%s running=%d ids=%s toks=%s picks=%s ctoks=%s guns=%s binds=%s exits=%s cuts=%s jitter=%d lastshot=%d gunctx=%d",
+		len(r.binds), e, end, int64(len(r.binds))+extraStarts, r.fails, len(pc.ctoks), started, starterr, len(r.binds)-len(r.exits), joinInts(ids),
+		joinInts(r.toks), joinInts(r.picks), joinInts(pc.ctoks), joinInts(r.guns), strings.Join(binds, ","), strings.Join(exits, ","), strings.Join(cuts, ","), jitter,
+		r.lastShot, r.gunCtx)
 }
 
 // startup profiles with every token at a multiple of 1 s (so that causes can be placed 500 ms away from every token)
@@ -404,7 +555,7 @@ func genStartupFree(r *rand.Rand) string {
 	n := 1 + r.Intn(3)
 	var ps []string
 	for i := 0; i < n; i++ {
-		switch r.Intn(4) {
+		switch r.Intn(6) {
 		case 0:
 			ps = append(ps, fmt.Sprintf("once:%d", 1+r.Intn(8)))
 		case 1:
@@ -413,15 +564,51 @@ func genStartupFree(r *rand.Rand) string {
 			f := r.Intn(4)
 			st := 1 + r.Intn(4)
 			ps = append(ps, fmt.Sprintf("step:%d:%d:%d:%d", f, f+r.Intn(4*st+1), st, 100*(1+r.Intn(6))))
+		case 4: // a fractional rate: one instance every 2 s / 4 s / 1.6 s (possibly no token at all)
+			ps = append(ps, fmt.Sprintf("constm:%d:%d", []int{500, 250, 625, 1500}[r.Intn(4)], 500*(1+r.Intn(8))))
 		default:
 			ps = append(ps, fmt.Sprintf("const:0:%d", 100*(1+r.Intn(10))))
 		}
 	}
-	return strings.Join(ps, "+")
+	return nest(r, strings.Join(ps, "+"), r.Intn(3))
+}
+
+// two pools in one engine: each with its own profile and its own cause
+func genPools(r *rand.Rand) string {
+	a := withCause(r, nest(r, genStartup(r), r.Intn(2)), []int{0, 1, 2, 4, 5, 6, 7}[r.Intn(7)], 500+1000*r.Intn(3))
+	b := withCause(r, nest(r, genStartup(r), r.Intn(2)), []int{0, 0, 1, 2, 5, 6}[r.Intn(6)], 500+1000*r.Intn(3))
+	if r.Intn(3) == 0 {
+		a += fmt.Sprintf(" cancel=%d", 500+1000*r.Intn(4))
+	}
+	// cancel= of the first pool is the cancel of the whole run; the second pool never carries one
+	if i := strings.Index(b, " cancel="); i >= 0 {
+		b = b[:i]
+	}
+	return a + " || " + b
+}
+
+// nest wraps a random contiguous run of the top-level parts of a profile in brackets (a nested composite), possibly repeatedly:
+// the token times are those of the flat profile, whatever the nesting
+func nest(r *rand.Rand, su string, depth int) string {
+	ps := splitTop(su)
+	if depth <= 0 || len(ps) == 0 {
+		return su
+	}
+	i := r.Intn(len(ps))
+	j := i + 1 + r.Intn(len(ps)-i)
+	inner := nest(r, strings.Join(ps[i:j], "+"), depth-1)
+	out := append([]string{}, ps[:i]...)
+	out = append(out, "["+inner+"]")
+	out = append(out, ps[j:]...)
+	return strings.Join(out, "+")
 }
 
 func withCause(r *rand.Rand, su string, kind, cutAt int) string {
 	switch kind {
+	case 7: // Bind of a later / the first gun fails
+		return fmt.Sprintf("startup=%s rps=const:10:12000 ammo=0 resp=0 failbind=%d cancel=7000", su, r.Intn(4))
+	case 8: // the per-instance RPS schedule of an instance cannot be created
+		return fmt.Sprintf("startup=%s rps=const:10:12000 perinst=1 ammo=0 resp=0 failsched=%d cancel=7000", su, r.Intn(4))
 	case 0: // nothing cuts: RPS long enough for every profile generated here (<= 6 s)
 		return fmt.Sprintf("startup=%s rps=const:10:7500 ammo=0 resp=0", su)
 	case 1: // shared RPS ends: its last token is drawn around cutAt ms (instances draw ahead)
@@ -492,10 +679,31 @@ func gen(r *rand.Rand, tier string) []string {
 		"startup=step:1:5:2:1000 rps=const:10:10000 ammo=0 resp=0 failgun=1",
 		"startup=once:1+const:0:1000+once:2 rps=const:10:10000 ammo=0 resp=0 failgun=2",
 		"startup=const:0:500+step:0:4:2:500 rps=const:10:10000 ammo=0 resp=0 failgun=0",
+		// …at the other two points of newInstance: Bind fails; the per-instance RPS schedule cannot be created
+		"startup=const:2:2000 rps=const:10:10000 ammo=0 resp=0 failbind=2",
+		"startup=once:2+const:0:500+once:1 rps=const:10:10000 ammo=0 resp=0 failbind=0",
+		"startup=step:1:4:1:500 rps=const:10:3000 perinst=1 ammo=0 resp=0 failsched=2",
+		"startup=once:3 rps=const:10:3000 perinst=1 ammo=0 resp=0 failsched=0",
+		// nested composites (composite inside composite, singleton and empty-part composites, instance_step inside): token times are
+		// those of the flat sequence
+		"startup=[once:1+const:0:500]+[once:1+[const:0:500+once:2]] rps=const:10:2500 ammo=0 resp=0",
+		"startup=[step:1:3:1:400+const:0:300]+once:2 rps=const:10:2500 ammo=0 resp=0",
+		"startup=[const:0:400]+[[once:2]]+[const:0:300+[once:1+const:0:300]+once:1] rps=const:10:2500 ammo=0 resp=0",
+		"startup=[once:1+[const:0:1000+once:1]+const:0:1000]+[once:1+const:0:1000+once:1] rps=const:10:10000 ammo=0 resp=0 cancel=1500",
+		"startup=[[const:1:2000]+[step:0:2:1:1000]] rps=const:10:10000 ammo=25 resp=0",
+		// fractional rates: 0.5 instances per second for 4 s (tokens at 0 and 2 s); for 1 s (no token at all: nothing may be started)
+		"startup=constm:500:4000 rps=const:10:5000 ammo=0 resp=0",
+		"startup=constm:500:1000 rps=const:10:1000 ammo=0 resp=0",
+		// several pools in one engine: ids, profile and causes are per pool; a pool that runs dry or finishes must not touch the others;
+		// a pool that FAILS cancels the run of the others
+		"startup=once:2+const:0:1000+once:2 rps=const:10:10000 ammo=5 resp=0 || startup=const:1:3000 rps=const:10:3500 ammo=0 resp=0",
+		"startup=once:2 rps=const:20:500 ammo=0 resp=0 || startup=step:0:3:1:500 rps=const:10:2500 ammo=0 resp=0",
+		"startup=const:1:3000 rps=const:10:10000 ammo=0 resp=0 failgun=1 || startup=step:1:4:1:1000 rps=const:10:10000 ammo=0 resp=0",
+		"startup=const:2:2000 rps=const:10:10000 ammo=0 resp=5 cancel=1200 || startup=once:3 rps=const:10:10000 perinst=1 ammo=0 resp=0 || startup=[const:0:2000+once:2] rps=const:10:10000 ammo=0 resp=0",
 	}
-	n, nfree := 14, 4
+	n, nfree, npools := 12, 4, 2
 	if tier == "thorough" {
-		n, nfree = 1000, 800
+		n, nfree, npools = 1000, 800, 150
 		// exhaustive small grid: every profile shape x every cause x every position of the cause
 		for _, su := range gridProfiles {
 			out = append(out, withCause(r, su, 0, 0), withCause(r, su, 5, 0))
@@ -517,22 +725,49 @@ func gen(r *rand.Rand, tier string) []string {
 	}
 	for i := 0; i < n; i++ {
 		cutAt := 500 + 1000*r.Intn(5) // ms, 500 ms away from every token (tokens are multiples of 1 s)
-		out = append(out, withCause(r, genStartup(r), r.Intn(7), cutAt))
+		su := genStartup(r)
+		if r.Intn(3) == 0 {
+			su = nest(r, su, 1+r.Intn(2))
+		}
+		out = append(out, withCause(r, su, r.Intn(9), cutAt))
+	}
+	for i := 0; i < npools; i++ {
+		out = append(out, genPools(r))
 	}
 	for i := 0; i < nfree; i++ {
-		out = append(out, withCause(r, genStartupFree(r), r.Intn(7), 100*(1+r.Intn(40))))
+		out = append(out, withCause(r, genStartupFree(r), r.Intn(9), 100*(1+r.Intn(40))))
 	}
 	return out
 }
 
 func class(in, obs string) string {
+	ins := strings.Split(in, "||")
+	if len(ins) > 1 {
+		// several pools: the class of every pool
+		obss := strings.Split(obs, "||")
+		if len(obss) != len(ins) {
+			return ""
+		}
+		var cs []string
+		for i := range ins {
+			c := class(ins[i], obss[i])
+			if c == "" {
+				return ""
+			}
+			cs = append(cs, c)
+		}
+		return fmt.Sprintf("pools:%d/", len(ins)) + strings.Join(cs, " | ")
+	}
 	m := drv.KV(in)
 	o := drv.KV(obs)
 	if o["total"] == "" {
 		return ""
 	}
 	c := "startup:"
-	for i, p := range strings.Split(m["startup"], "+") {
+	if strings.Contains(m["startup"], "[") {
+		c = "startup(nested):"
+	}
+	for i, p := range strings.Split(strings.NewReplacer("[", "", "]", "").Replace(m["startup"]), "+") {
 		if i > 0 {
 			c += "+"
 		}
@@ -591,7 +826,7 @@ func main() {
 		return
 	}
 	// the cases mostly sleep: many can run side by side (timing checks are one-sided or margin-guarded, see Spec)
-	workers := 12
+	workers := 16
 	for i, a := range os.Args {
 		if (a == "-tier" || a == "--tier") && i+1 < len(os.Args) && os.Args[i+1] == "thorough" {
 			workers = 28
@@ -607,6 +842,8 @@ func main() {
 		Rule: "scripted scenarios (startup once / const / instance_step / composites / empty; shared and per-instance RPS; ammo exhaustion, RPS end, run cancel and gun " +
 			"creation failure before, inside and after the startup window, during the first Wait) plus scenarios drawn from one PRNG: profiles whose tokens are multiples " +
 			"of 1 s with the cause placed 500 ms away from every token, and free profiles (any spacing, up to 30 instances) with the cause anywhere; thorough adds the full " +
-			"grid of 12 profile shapes x 6 causes x 4 positions and 40 bursts of up to 200 instances. non-trivial = the engine ran; distinct = distinct input line",
+			"grid of 12 profile shapes x 6 causes x 4 positions, 40 bursts of up to 200 instances and 150 engines of two pools. Also: nested composites (random bracketing of " +
+			"the flat profiles), fractional rates, an instance that cannot be created at each of the three points of newInstance (schedule, gun, Bind), engines of 2-3 " +
+			"pools. non-trivial = the engine ran; distinct = distinct input line",
 	})
 }
